@@ -305,6 +305,12 @@ type Cache struct {
 	// the 1-based number of the call; it may block to model a slow disk.
 	OnWrite func(n int)
 	failing bool // every Write fails while set (SetFailing)
+	// Backing, if set, is a real cache device (e.g. setec.NewFileCache) every successful Write goes
+	// through; Data / Read / Writes then report what was READ BACK from it after the write.
+	Backing interface {
+		Write([]byte) error
+		Read() ([]byte, error)
+	}
 }
 
 // SetFailing makes every later Write fail (true) or work again (false): a cache device that goes away.
@@ -329,6 +335,17 @@ func (c *Cache) Write(b []byte) error {
 		return errors.New("cache write failed (injected)")
 	}
 	cp := append([]byte{}, b...)
+	if c.Backing != nil {
+		// the document goes to the real device; what the cache "holds" is what can be read back from it
+		if err := c.Backing.Write(b); err != nil {
+			return err
+		}
+		back, err := c.Backing.Read()
+		if err != nil {
+			return err
+		}
+		cp = append([]byte{}, back...)
+	}
 	c.data = cp
 	c.Writes = append(c.Writes, cp)
 	return nil
